@@ -85,6 +85,29 @@ P = {
         "components": comp(real=["services ldap, ftp, smtp, telnet, redis, memcached, http, tftp (one Servicer instance shared by all connections, as in production)"]),
         "assumptions": ["interleaving granularity = one command per scheduler step", "FTP transcripts are compared as line multisets (FEAT lists extensions in Go map order)"],
     },
+    "C14": {
+        "runs": {"quick": 3000, "thorough": 300000},
+        "budget_s": {"quick": 200, "thorough": 3300},
+        "rule": "one scenario = 1-4 scripted TCP peers (client ISN from the boundary set {0,1,2^31-1,2^31,2^32-2,2^32-1} or random, decoded and undecoded destination ports, 0-4000 payload bytes in 1-8 in-order segments of even and odd lengths with seeded PSH placement, peers with an ARP entry or reachable through the gateway, several peers sharing one address) whose frames are interleaved by the choice tape into the simulated NIC consumed by the real Start() loop; peers acknowledge what they receive; one peer is re-run alone; distinct = distinct trace digest; non-trivial = at least two peers",
+        "components": comp(real=["listener/canary: New, Start() receive loop, handleTCP, send, state table, socket, tcp/ipv4/ethernet marshalling (all real)"], simulated=["epoll + AF_PACKET syscalls, /proc/net/route, /proc/net/arp, interface table (simsys)"], stub=["independent Ethernet/IPv4/TCP decoder and checksum verifier in the harness"]),
+        "assumptions": ["server ISN is drawn by the implementation from the seeded global math/rand (not steerable)", "sensor address is 127.0.0.1 (interface lo with a fixed hardware address)"],
+    },
+    "C02": {
+        "runs": {"quick": 3000, "thorough": 200000},
+        "budget_s": {"quick": 240, "thorough": 3300},
+        "rule": "one scenario = a history of 1-60 link-layer frames (random bytes; Ethernet type; IPv4 IHL/version/total-length/fragment fields; TCP data offset 0-15 with 0-3 option bytes or longer random options, flag combinations, truncations; UDP length vs. actual; short ICMP; ARP; stray TCP segments; well-formed SYNs that make the listener transmit) or a SYN flood of up to 70,000 distinct 4-tuples with or without a 31 s gap (state-table reuse horizon), under one of four ARP/route configurations (peer known, via gateway, gateway without ARP entry, nothing), with clock advances and EINTR from epoll_wait, followed by a well-formed UDP probe; distinct = distinct trace digest; non-trivial = more than one frame",
+        "components": comp(real=["listener/canary: New, Start() receive loop, ethernet/ipv4/tcp/udp/icmp/arp parsers, handleTCP/UDP/ICMP, state table, send (all real)"], simulated=["epoll + AF_PACKET syscalls, /proc/net/route, /proc/net/arp, interface table (simsys)"]),
+        "assumptions": ["process death is observed by the driver (the receive loop has no recover)", "ARP frames are ignored by every reachable configuration (do_arp is not settable)"],
+        "stall_s": 300,
+        "single_timeout": 600,
+    },
+    "C20": {
+        "runs": {"quick": 3000, "thorough": 300000},
+        "budget_s": {"quick": 200, "thorough": 3300},
+        "rule": "one scenario = 1-4 scanning sources each sending one or two bursts of 1-150 probes (TCP SYN, UDP to ports without decoder, ICMP echo; single- and mixed-protocol; ports drawn with repetition from a small set; gaps of 0/10 ms/1 s/4 s inside a burst, 75-200 s between bursts) as frames into the simulated NIC, interleaved by the choice tape, then ten simulated minutes of observation on the fake clock; distinct = distinct trace digest; non-trivial = at least two sources",
+        "components": comp(real=["listener/canary: Start() loop, handleTCP/UDP/ICMP knock queueing, knockDetector with its 5 s timer, UniqueSet (all real)"], simulated=["epoll + AF_PACKET syscalls, /proc tables (simsys)", "fake clock"]),
+        "assumptions": ["for mixed-protocol bursts one event or one per protocol family are both accepted", "set semantics of the grouping container are exercised through the detector, not enumerated separately"],
+    },
 }
 
 def get(prop):
